@@ -28,7 +28,7 @@ fn has_choice(d: &MDesc) -> bool {
 impl Check for C02 {
     fn id(&self) -> &'static str { "C02" }
     fn rule(&self) -> String {
-        "case = (descriptor or bare miniscript, world); ground truth = lazy exhaustive witness search over the holder's alphabet (empty, 1, a signature per held key, script keys, held preimages, 32 zero bytes) on the independently encoded script under standardness flags, symbolic signatures. Lane `mall`: any script the context's consensus parameters accept, malleable entry points. Lane `sane`: scripts accepted under default sanity rules, worlds holding every preimage, non-malleable entry points. Non-trivial = ground truth says satisfiable AND the script contains a disjunction/threshold (a path had to be chosen); distinct by (text, world, entry).".into()
+        "case = (descriptor or bare miniscript, world); ground truth = lazy exhaustive witness search over the holder's alphabet (empty, 1, a signature per held key, script keys, held preimages, 32 zero bytes) on the independently encoded script under standardness flags, symbolic signatures. Lane `mall`: any script the context's consensus parameters accept, malleable entry points. Lane `sane`: scripts accepted under default sanity rules, worlds holding every preimage, non-malleable entry points. lane `raw-pkh`: pre-taproot scripts with pk_h fragments are DECODED from their script (raw key hashes) and satisfied by a satisfier that knows the key behind a hash only together with a signature; truth = a canonical satisfaction (specification table, `mirror::canon`) exists in which every pk_h is satisfied with a held signature. Non-trivial = ground truth says satisfiable AND the script contains a disjunction/threshold (a path had to be chosen); distinct by (text, world, entry).".into()
     }
     fn assumptions(&self) -> Vec<String> {
         vec![
@@ -39,11 +39,14 @@ impl Check for C02 {
     }
     fn lanes(&self, tier: Tier) -> Vec<(&'static str, usize, usize)> {
         match tier {
-            Tier::Quick => vec![("mall", 5000, 400), ("sane", 5000, 400), ("sane-or-heavy", 5000, 500)],
-            Tier::Thorough => vec![("mall", 300_000, 500), ("sane", 300_000, 500), ("sane-or-heavy", 300_000, 600)],
+            Tier::Quick => vec![("mall", 5000, 400), ("sane", 5000, 400), ("sane-or-heavy", 5000, 500), ("raw-pkh", 60_000, 300)],
+            Tier::Thorough => vec![("mall", 300_000, 500), ("sane", 300_000, 500), ("sane-or-heavy", 300_000, 600), ("raw-pkh", 2_000_000, 400)],
         }
     }
     fn run_case(&self, lane: &str, src: &mut Src, rep: &mut Report) -> Result<(), Failure> {
+        if lane == "raw-pkh" {
+            return raw_pkh_case(src, rep);
+        }
         // lane sane-or-heavy: nested disjunctions / thresholds of signature branches with a signer
         // who holds (almost) everything: holding MORE must never make funds unspendable
         let heavy = lane == "sane-or-heavy";
@@ -216,4 +219,105 @@ pub fn frag_signature(d: &MDesc) -> String {
     }
     let v: Vec<&str> = s.into_iter().collect();
     v.join("+")
+}
+
+
+/// Lane `raw-pkh`: the script is DECODED (pk_h becomes a raw key hash) and satisfied by a satisfier
+/// that knows the key behind a hash only together with a signature (what a PSBT with partial
+/// signatures and no key origins offers).  Truth: a canonical satisfaction of the specification's
+/// table exists in which every pk_h is satisfied with a held signature (never dissatisfied),
+/// every other signature is held, all preimages are known and the locks are met.
+fn raw_pkh_case(src: &mut Src, rep: &mut Report) -> Result<(), Failure> {
+    use crate::mirror::canon;
+    use crate::mirror::spec::Ctx;
+    let ctx = *src.pick(&[Ctx::Segwitv0, Ctx::Legacy, Ctx::Bare]);
+    let size = src.range(2, 9);
+    let mut cfg = Cfg::new(ctx, size);
+    cfg.key_style = KeyStyle::Hex;
+    cfg.allow_uncompressed = ctx != Ctx::Segwitv0;
+    cfg.leaf_w = [8, 1, 2];
+    cfg.consistent_locks = true;
+    cfg.distinct_keys = src.bool();
+    let node = gen::gen_ms(src, &cfg);
+    if !crate::mirror::analysis::has(&node, &|x| matches!(x, crate::mirror::ast::Node::PkH(_))) {
+        rep.class("raw-pkh:no-pkh");
+        return Ok(());
+    }
+    rep.desc = format!("{:?} {}", ctx, crate::mirror::ast::print(&node, true));
+    let unit = oracle::unit_of(&node, ctx).map_err(|e| Failure { sig: "mirror-encode".into(), msg: e })?;
+    // holdings: a subset of the keys; all preimages; locks at the script's maxima
+    let mut world = crate::world::World { keys: Default::default(), preimages: keys::u().preimages.iter().copied().collect(), lock_time: 0, sequence: 0xffff_fffe, tx_version: 2 };
+    let p_key = src.range(1, 4);
+    let mut all_kb: Vec<Vec<u8>> = Vec::new();
+    for k in node.keys() {
+        if let Ok(kb) = crate::mirror::encode::key_bytes(&k, ctx) {
+            if src.chance(p_key, 4) {
+                if let Some(x) = keys::xonly_of(&kb) {
+                    world.keys.insert(x);
+                }
+            }
+            all_kb.push(kb);
+        }
+    }
+    let (afters, olders) = gen::locks_of(&[&node]);
+    if let Some(a) = afters.iter().max() {
+        world.lock_time = *a;
+    }
+    if let Some(o) = gen::sequence_meeting(&olders) {
+        world.sequence = o;
+    }
+    let (mut sat, _checker) = crate::world::sign_symbolic(&world, &all_kb, &[], None);
+    sat.no_raw_pkh_pk = true;
+    let sigf = |kb: &[u8]| -> Option<Vec<u8>> { sat.ecdsa.get(kb).map(|s| s.to_vec()) };
+    let env = canon::Env { ctx, sig: &sigf, cap: 16, pkh_dissat: false };
+    let truth = match canon::canon(&node, &env) {
+        Some(sd) => !sd.sat.is_empty(),
+        None => return Ok(()),
+    };
+    rep.class(format!("raw-pkh:truth={}", truth));
+    let script = bitcoin::ScriptBuf::from_bytes(unit.script.clone());
+    macro_rules! go {
+        ($c:ty) => {{
+            let mut p = <$c as miniscript::ScriptContext>::CONSENSUS;
+            p.allow_raw_pkh = true;
+            p.allow_or_i = true;
+            p.allow_dup_if = true;
+            match miniscript::Miniscript::<bitcoin::PublicKey, $c>::decode_with_validation_params(&script, &p) {
+                Ok(ms) => Some(crate::runner::guard("satisfy_malleable", || ms.satisfy_malleable(&sat))?.is_ok()),
+                Err(_) => None,
+            }
+        }};
+    }
+    let lib_ok = match ctx {
+        Ctx::Bare => go!(miniscript::BareCtx),
+        Ctx::Legacy => go!(miniscript::Legacy),
+        _ => go!(miniscript::Segwitv0),
+    };
+    match lib_ok {
+        None => {
+            rep.class("raw-pkh:not-decoded");
+            Ok(())
+        }
+        Some(ok) => {
+            if truth && !ok {
+                return fail(&format!("unsat/raw-pkh/{}", frag_signature_node(&node)), format!("a canonical satisfaction with the held signatures exists (every pk_h satisfied) but satisfy_malleable on the decoded script finds none: {}", rep.desc));
+            }
+            if truth {
+                rep.nontrivial_by(&rep.desc.clone());
+            }
+            Ok(())
+        }
+    }
+}
+
+fn frag_signature_node(n: &crate::mirror::ast::Node) -> String {
+    let mut names: Vec<&'static str> = Vec::new();
+    n.walk(&mut |x| {
+        let f = x.frag_name();
+        if !names.contains(&f) {
+            names.push(f);
+        }
+    });
+    names.sort();
+    names.join("+")
 }
